@@ -386,6 +386,50 @@ fn tagdeny_run(n: u8) {
 pub fn derive_tagdeny_first() { reset_all(&D_TAGDENY); put_entry(0, 0, Node::Str(1 + nd::below(3))); put_entry(1, match nd::below(3) { 0 => 4, 1 => 5, _ => 0 }, any_val()); tagdeny_run(2); }
 pub fn derive_tagdeny_last() { reset_all(&D_TAGDENY); put_entry(0, match nd::below(3) { 0 => 4, 1 => 5, _ => 0 }, any_val()); put_entry(1, 0, Node::Str(1 + nd::below(3))); tagdeny_run(2); }
 
+
+// ---- T13: by-reference conversion functions and `map` on a required field -----------------------------------------
+pub fn conv_from_ref(l: &Leaf) -> Wrapped { bump(0); Wrapped(lv(l) + 500) }
+pub fn conv_try_ref(l: &Leaf) -> Result<Wrapped, Foreign> { bump(1); let v = lv(l); if v % 2 == 1 { Ok(Wrapped(v + 700)) } else { Err(Foreign(3000 + v as u32, 0)) } }
+pub fn map_req(l: Leaf) -> Leaf { bump(2); Leaf(lv(&l) + 1000 - 1) }
+#[derive(Deserr)]
+#[deserr(error = Rec)]
+pub struct Refs13 {
+    #[deserr(try_from(&Leaf) = conv_try_ref -> Foreign)]
+    pub aaaa: Wrapped,
+    #[deserr(from(&Leaf) = conv_from_ref)]
+    pub bbbb: Wrapped,
+    #[deserr(map = map_req)]
+    pub cccc: Leaf,
+}
+impl Viewed for Refs13 { fn slots(&self) -> [u64; MAXF] { [self.aaaa.0, self.bbbb.0, lv(&self.cccc), 0, 0, 0] } }
+pub static S_REFS13: StructDesc = StructDesc { fields: &[
+    FieldDesc { key: 0, presence: Presence::Required, ty: FTy::Leaf, missing_fn: false, conv: Conv::TryFrom(1), map: None },
+    FieldDesc { key: 1, presence: Presence::Required, ty: FTy::Leaf, missing_fn: false, conv: Conv::From(0), map: None },
+    FieldDesc { key: 2, presence: Presence::Required, ty: FTy::Leaf, missing_fn: false, conv: Conv::None, map: Some(2) },
+], deny: Deny::No, validate: None };
+pub fn derive_refs13_2() { run_struct::<Refs13>(&S_REFS13, &D_CONV8, 2) }
+pub fn derive_refs13_3() { run_struct::<Refs13>(&S_REFS13, &D_CONV8, 3) }
+
+// ---- T14: container-level `from` (infallible): the intermediate value is deserialized first, then converted exactly once ----
+pub fn cont_from(l: Leaf) -> Cfrom14 { bump(6); Cfrom14(lv(&l) + 900) }
+#[derive(Deserr)]
+#[deserr(error = Rec, from(Leaf) = cont_from)]
+pub struct Cfrom14(pub u64);
+impl Viewed for Cfrom14 { fn slots(&self) -> [u64; MAXF] { [self.0, 0, 0, 0, 0, 0] } }
+pub fn derive_cfrom14() {
+    reset_all(&D_CONV8);
+    let n = any_val();
+    let o = ValuePointerRef::Origin; let l = o.push_index(1);
+    let p = Path::ROOT.idx(1);
+    let r = <Cfrom14 as Deserr<Rec>>::deserialize_from_value::<KV>(to_value(n), l);
+    let mut ex = Expect::EMPTY;
+    match n {
+        Node::Int(x) => { ex.counters[6] = 1; ex.view[0] = leaf_view(x) + 900; }
+        _ => { ex.log.push(report(K_UNEXPECTED, p, 0, 0)); }
+    }
+    judge(r, &ex, &p);
+}
+
 // ---- C15: member order never changes the outcome (relational: same members, both orders, keep-going) -----------
 fn same_multiset(a: &Rec, b: &Rec) -> bool {
     if a.n != b.n { return false; }
@@ -448,7 +492,7 @@ pub fn registry() -> Vec<(&'static str, crate::Body)> {
          ("derive_fns5_2", derive_fns5_2), ("derive_conv8_2", derive_conv8_2), ("derive_conv8_3", derive_conv8_3), ("derive_cont9", derive_cont9),
          ("derive_tagged_first", derive_tagged_first), ("derive_tagged_last", derive_tagged_last), ("derive_tagged_absent", derive_tagged_absent), ("derive_tagged_not_a_map", derive_tagged_not_a_map),
          ("derive_units", derive_units), ("derive_nest", derive_nest), ("derive_deffirst_2", derive_deffirst_2), ("derive_deffirst_3", derive_deffirst_3), ("derive_ferr10_2", derive_ferr10_2),
-         ("derive_tagdeny_first", derive_tagdeny_first), ("derive_tagdeny_last", derive_tagdeny_last), ("order_camel", order_camel), ("order_tagged", order_tagged), ("order_conv8", order_conv8),
+         ("derive_refs13_2", derive_refs13_2), ("derive_refs13_3", derive_refs13_3), ("derive_cfrom14", derive_cfrom14), ("derive_tagdeny_first", derive_tagdeny_first), ("derive_tagdeny_last", derive_tagdeny_last), ("order_camel", order_camel), ("order_tagged", order_tagged), ("order_conv8", order_conv8),
          ("order_camel_3", order_camel_3), ("order_lower_3", order_lower_3), ("order_deffirst_3", order_deffirst_3), ("order_tagged_3", order_tagged_3), ("order_tagdeny_3", order_tagdeny_3)]
 }
 
@@ -456,9 +500,10 @@ pub fn registry() -> Vec<(&'static str, crate::Body)> {
 mod proofs {
     macro_rules! proof { ($($n:ident),*) => { $( mod $n { #[kani::proof] #[kani::unwind(10)] #[kani::stub(alloc::fmt::format, crate::fake_format)] fn check() { super::super::$n() } } )* } }
     proof!(derive_plain_2, derive_camel_2, derive_lower_2, derive_deny4_2, derive_fns5_2, derive_conv8_2, derive_cont9,
-           derive_units, derive_nest, order_camel, order_conv8, derive_deffirst_2, derive_ferr10_2);
+           derive_units, derive_nest, order_camel, order_conv8, derive_deffirst_2, derive_ferr10_2, derive_refs13_2, derive_cfrom14);
     macro_rules! proof14 { ($($n:ident),*) => { $( mod $n { #[kani::proof] #[kani::unwind(14)] #[kani::stub(alloc::fmt::format, crate::fake_format)] fn check() { super::super::$n() } } )* } }
-    proof14!(derive_tagged_first, derive_tagged_last, derive_tagged_absent, derive_tagged_not_a_map, order_tagged, derive_tagdeny_first, derive_tagdeny_last);
+    proof14!(derive_tagged_first, derive_tagged_last, derive_tagged_absent, derive_tagged_not_a_map, order_tagged, derive_tagdeny_first);
+    // derive_tagdeny_last (like derive_tagged_last): > 9 GB under CBMC; covered by exhaustive native execution only
     /// thorough tier only
     mod derive_conv8_3 { #[kani::proof] #[kani::unwind(10)] #[kani::stub(alloc::fmt::format, crate::fake_format)] fn check() { super::super::derive_conv8_3() } }
 }
